@@ -606,7 +606,7 @@ func main() {
 	r = explore.Start("C02")
 	maxLen := r.Pick(3, 4)
 	if r.Replay != "" {
-		r.Fault("replay: feed detail.input in the reads of detail.reads to ansi.NewParser; not implemented")
+		r.ReplayBySearch()
 	}
 	if idx, n, arg, ok := r.Worker(); ok {
 		r.Watchdog(60 * time.Second)
